@@ -31,7 +31,7 @@ LEVEL_TEXT = ("Real runs of lengths 1-12 with output periods 1-4 and all plug-in
 LEVEL_NOTE = "The two traces are recorded by different mechanisms (wrappers vs interpreter events) and must agree call for call; a run whose tracer saw zero anchored calls is inconclusive."
 RULE = ("case = (variant, steps, period, plug-in spelling, warm/cold, kill schedule). Non-trivial: at least 2 steps and a release after the first step or an IBM kill; distinct by parameters.")
 MANDATORY = ["plugin_section_with_module_only", "steps_parsed", "traces_agree", "plugin_relative", "plugin_absolute", "plugin_with_py", "plugin_subdir", "plugin_module_name", "decoy_present", "warm_start_runs",
-             "output_plugin_runs", "forcing_plugin_runs", "coded_scalar_values_checked", "ibm_positions_checked", "kills_checked", "late_release_in_record", "close_calls_checked"]
+             "output_plugin_runs", "forcing_plugin_runs", "coded_scalar_values_checked", "ibm_positions_checked", "kills_checked", "ibm_kills_everybody_present", "late_release_in_record", "close_calls_checked"]
 ASSUMPTIONS = ["state and time have no close by design; close is required exactly once only for modules that define one"]
 MIN_CASES_PER_PROCESS = 4  # several runs share one interpreter: state leaking between runs (module caches, shared defaults) becomes observable
 TIMEOUT = {"quick": 900, "thorough": 3400}
@@ -172,7 +172,12 @@ def run_case(case: dict[str, Any], wd: Path) -> dict[str, Any]:
     if late:
         rows += [[str(tadd(start, late * dt)), 7.5, 6.5, 3.0], [str(tadd(start, late * dt)), 8.5, 5.5, 3.0]]
     kill_step = int(rng.integers(0, ns)) if ns > 2 and rng.random() < 0.7 and case["idx"] % 3 else None
-    kills = {str(kill_step): [1]} if kill_step is not None else {}
+    victims = [1]
+    if kill_step is not None and case["idx"] % 4 == 1:
+        # everybody present is killed in the same step: no living particle until the next release (if any)
+        victims = [0, 1, 2] + ([3, 4] if late and late <= kill_step else [])
+        sit["ibm_kills_everybody_present"] = 1
+    kills = {str(kill_step): victims} if kill_step is not None else {}
     coef = dict(a=3.0, b=0.25, c=-0.5, e=1.0e-3)
     sp_u = 0.2 * 1000.0 / dt
     run: dict[str, Any] = dict(start=start, stop=str(tadd(start, ns * dt)), dt=dt, advection="EF",
@@ -357,7 +362,8 @@ def run_case(case: dict[str, Any], wd: Path) -> dict[str, Any]:
         # forcing evaluated for the newly released particles (forcing.update log carries the state length)
         if label == "cold" and late:
             fu = [c for c in calls if c[0] == "forcing.update" and len(c) >= 3 and c[1] == late]
-            if fu and fu[0][2] < 4:
+            gone_before = len([v for v in victims if v < 3]) if (kill_step is not None and kill_step < late) else 0
+            if fu and fu[0][2] < 5 - gone_before:
                 V.append(C.viol(f"forcing at step {late} evaluated for {fu[0][2]} particles: the particles released in this step were not included", **d2))
         # IBM sees every living pid once per step
         steps_seen = [s["step"] for s in plog if "alive" in s]
@@ -367,11 +373,16 @@ def run_case(case: dict[str, Any], wd: Path) -> dict[str, Any]:
         if label == "cold" and kill_step is not None:
             sit["kills_checked"] = sit.get("kills_checked", 0) + 1
             for s, r in sorted(records.items()):
-                has = 1 in set(int(p) for p in r["pid"])
-                if s <= kill_step and not has:
-                    V.append(C.viol(f"pid 1 (killed by the IBM at step {kill_step}) is already missing from the record of step {s}", **d2))
-                if s > kill_step and has:
-                    V.append(C.viol(f"pid 1 was killed by the IBM at step {kill_step} but is still in the record of step {s}", **d2))
+                inrec = set(int(p) for p in r["pid"])
+                for vp in victims:
+                    has = vp in inrec
+                    born = 0 if vp < 3 else late
+                    if born <= s <= kill_step and not has:
+                        V.append(C.viol(f"pid {vp} (killed by the IBM at step {kill_step}) is already missing from the record of step {s}", **d2))
+                    if s > kill_step and has:
+                        V.append(C.viol(f"pid {vp} was killed by the IBM at step {kill_step} but is still in the record of step {s}", **d2))
+                if len(V) > 3:
+                    break
         _ = first_step
     nontrivial = ns >= 2 and (late > 0 or kill_step is not None)
     sample = dict(desc, module_spellings=modspec, late_release_step=late, kill_step=kill_step,
